@@ -125,6 +125,18 @@ func vxString(n, max int) string {
 	return string(b)
 }
 
+// vxASCIIString returns an arbitrary string of 0..max ASCII bytes.
+func vxASCIIString(max int) string {
+	n := vxLen(max)
+	s := vxString(n, max)
+	for i := 0; i < len(s); i++ {
+		if s[i] >= 0x80 {
+			panic(vxAssumeFailed{})
+		}
+	}
+	return s
+}
+
 func vxID() (id [12]byte) {
 	for i := range id {
 		id[i] = vxU8()
@@ -160,6 +172,14 @@ func vxUnwind(int, bool)         {}
 func vxGuard(_, _, _ string)     {}
 func vxNote(string)              {}
 func vxIsNilSlice(s []byte) bool { return s == nil }
+
+// vxStrAt reads s[i], or 0 when i is out of range (never panics).
+func vxStrAt(s string, i int) byte {
+	if i < 0 || i >= len(s) {
+		return 0
+	}
+	return s[i]
+}
 
 // vxAt reads b[i], or 0 when i is out of range (never panics).
 func vxAt(b []byte, i int) byte {
